@@ -1,1 +1,2 @@
 import Proofs.Basic
+import Proofs.Codec
